@@ -4,7 +4,7 @@
      the repairs of C13-F2/F3/F4
      (file KEY LIB VER WSTD UNMERGED ELEMDOM ((LONG ((ATTR (VAL..))..))..))
      (load FIXED H (T..)) (resolve H T) (getent H NAME NS) (twa H required|unique) (grp H (T..)) (cap FIXED H T) (flag H)
-     (entries H I) (dups H I) (contains HB HL) *)
+     (entries H I) (dups H I) (contains HB HL) (reid HA HB T) *)
 let exn_sx (e : exn) : sx = A (match e with
   | TypeError -> "TypeError" | KeyError -> "KeyError" | AttributeError -> "AttributeError"
   | ValueError -> "ValueError" | IndexError -> "IndexError" | RecursionError -> "RecursionError"
@@ -101,6 +101,13 @@ let () = main_loop (fun x ->
   | L [A "dups"; A h; i] ->
       let l = List.nth (get_handle h) (sx_int i) in
       L (List.map (fun k -> L (List.map str_sx k)) l.l_table.t_dups)
+  | L [A "reid"; A ha; A hb; t] ->
+      (* HedTag(t, A) then _calculate_to_canonical_forms(B) *)
+      let txt = sx_str t in
+      let (ra, _) = x_resolve (get_handle ha) txt in
+      let (rb, iss) = reidentify (cfg_of (get_handle hb)) txt ra in
+      L [(match rb.rt_entry with Some e -> L [A "1"; str_sx e.en_name] | None -> L [A "0"]);
+         str_sx (ext_value rb); L (List.map code_sx iss); str_sx (tag_text txt ra)]
   | L [A "contains"; A hb; A hl] ->
       let b = List.hd (get_handle hb) and l = List.hd (get_handle hl) in
       bool_sx (contains_standard b.l_table l.l_table)
